@@ -186,10 +186,11 @@ func (r *Run) Must(what string, budget int64, f func()) {
 // ---- engine specification ------------------------------------------------------
 
 type Plan struct {
-	Enum       int  // enumerated cases 0..Enum-1 (each run once, first tape draw forced)
-	Random     int  // tape-random runs
-	Exhaustive bool // the enumerated part covers a finite space completely (stated in Rule)
-	WallLimit  time.Duration
+	ExhaustiveScope string // which finite space the enumerated part covers completely (evidence key exhaustive_scope)
+	Enum            int    // enumerated cases 0..Enum-1 (each run once, first tape draw forced)
+	Random          int    // tape-random runs
+	Exhaustive      bool   // the enumerated part covers a finite space completely (stated in Rule)
+	WallLimit       time.Duration
 }
 
 type Spec struct {
@@ -859,6 +860,7 @@ func coordinate(s *Spec, tier string, seed uint64, workers int, plan Plan, ks []
 		"rule":                s.Rule,
 		"samples":             samples,
 		"exhaustive":          plan.Exhaustive && !merged.Truncated && len(merged.Violations) == 0,
+		"exhaustive_scope":    plan.ExhaustiveScope,
 		"enumerated_cases":    plan.Enum,
 		"random_runs":         plan.Random,
 		"runs_per_hour":       int64(float64(merged.Runs) / wall * 3600),
